@@ -197,10 +197,23 @@ type execLog struct {
 func (l *execLog) now() int64 { return l.base + int64(time.Since(l.t0)) }
 
 func (l *execLog) add(kind string, pos int, attempts, retries, hedges, executions int, out string, aux int64) {
+	l.addT(kind, pos, attempts, retries, hedges, executions, out, aux, 0, -1)
+}
+
+// abs converts an instant of the bubble's clock to the absolute nanoseconds used in the logs (0 stays 0: unknown).
+func (l *execLog) abs(t time.Time) int64 {
+	if t.IsZero() {
+		return 0
+	}
+	return l.base + int64(t.Sub(l.t0))
+}
+
+// addT also records the execution's StartTime and the AttemptStartTime the observer could read (-1: the event carries none).
+func (l *execLog) addT(kind string, pos int, attempts, retries, hedges, executions int, out string, aux int64, start, astart int64) {
 	l.mu.Lock()
 	defer l.mu.Unlock()
-	l.events = append(l.events, fmt.Sprintf("{| e_kind := K%s; e_pos := %d%%nat; e_attempts := %d; e_retries := %d; e_hedges := %d; e_executions := %d; e_out := %s; e_aux := %d; e_time := %d |}",
-		kind, pos, attempts, retries, hedges, executions, out, aux, l.now()))
+	l.events = append(l.events, fmt.Sprintf("{| e_kind := K%s; e_pos := %d%%nat; e_attempts := %d; e_retries := %d; e_hedges := %d; e_executions := %d; e_out := %s; e_aux := %d; e_time := %d; e_start := %d; e_astart := %s |}",
+		kind, pos, attempts, retries, hedges, executions, out, aux, l.now(), start, gZ(astart)))
 	l.counts[kind]++
 	if len(l.events) > 5000 {
 		panic("verifharness: runaway execution (more than 5000 events)")
@@ -208,10 +221,10 @@ func (l *execLog) add(kind string, pos int, attempts, retries, hedges, execution
 }
 
 func (l *execLog) attempt(kind string, pos int, e failsafe.ExecutionAttempt[int], aux int64) {
-	l.add(kind, pos, e.Attempts(), e.Retries(), e.Hedges(), e.Executions(), gOutcome(e.LastResult(), e.LastError()), aux)
+	l.addT(kind, pos, e.Attempts(), e.Retries(), e.Hedges(), e.Executions(), gOutcome(e.LastResult(), e.LastError()), aux, l.abs(e.StartTime()), l.abs(e.AttemptStartTime()))
 }
 
 func (l *execLog) done(kind string, pos int, e failsafe.ExecutionDoneEvent[int]) {
-	l.add(kind, pos, e.Attempts(), e.Retries(), e.Hedges(), e.Executions(), gOutcome(e.Result, e.Error), 0)
+	l.addT(kind, pos, e.Attempts(), e.Retries(), e.Hedges(), e.Executions(), gOutcome(e.Result, e.Error), 0, l.abs(e.StartTime()), -1)
 }
 
